@@ -17,7 +17,11 @@ EXPLANATION = (
     "are all `?`-checked, a GetSystemInfo exchange, and the TRUE edge of String == String on to_lowercase(config."
     "feig_serial) and to_lowercase(packet.device_id); the Abort arm and the unequal edge return Err. (d) Sequence::"
     "into_stream is called only inside connect and the retry wrapper, TcpStream.inner is private, and the client "
-    "module reaches the terminal only through ResetSequence on self.socket.")
+    "module reaches the terminal only through ResetSequence on self.socket. (e) The wrapper clears the slot only "
+    "*after* it has yielded the failing item, so the reset runs only if the consumer polls the stream again: in every "
+    "client function, on the edge where a polled item is an Err, every path polls the same stream again before the "
+    "function can return (a `?` / early return there would drop the coroutine suspended at the yield, the failed "
+    "connection would stay in the slot and be reused unvetted by the next call).")
 RULE = ("product CFG x (flag, failed, slot); edge-dominance of connect by is_none; ordered dominance chain in connect; "
         "who-may-call / visibility tables.")
 
@@ -37,6 +41,7 @@ def run(ctx, chk):
     retry(chk, crate)
     connect(chk, crate)
     bypass(chk, crate, ctx)
+    drained(chk, crate, ctx)
 
 
 # ------------------------------------------------------------------ (a)(b)
@@ -61,17 +66,12 @@ def retry(chk, crate):
                     slot_writes[i] = ("U", e)
     chk.require(any(v[0] == "N" for v in slot_writes.values()), "C09-a/anchor", "src.inner = None",
                 "no statement clears the connection slot", "", f.sp(), nontrivial=False)
-    # the flag: bool local assigned from Result::is_err
-    flag = None
-    for l, loc in enumerate(b.locals):
-        if ty_str(loc["ty"]) == "bool":
-            for d in tr.defs.get(l, []):
-                if d[2] == "assign":
-                    e = ex.rvalue(d[3]["rv"])
-                    if is_call(e, "Result::<T, E>::is_err"):
-                        flag = l
-    chk.require(flag is not None, "C09-a/anchor", "is_err flag", "no flag loaded from Result::is_err found", "", f.sp(),
-                nontrivial=False)
+    # the error flag(s): every bool local is tracked path-sensitively (constants, copies, and the two
+    # outcomes of Result::is_err); the anchor only requires that the item's status is inspected at all
+    is_err_calls = [bb for bb, t in f.b.calls() if callee(t) == "core::result::Result::<T, E>::is_err"]
+    chk.require(len(is_err_calls) >= 1, "C09-a/anchor", "is_err flag", "the status of the yielded item is never inspected "
+                "(no Result::is_err)", "", f.sp(), nontrivial=False)
+    bool_locals = {l for l, loc in enumerate(b.locals) if ty_str(loc["ty"]) == "bool"}
     # loop head = the `retry.next()` call; inner poll = `stream.next()`
     heads = []
     for bb, t in f.b.calls():
@@ -113,7 +113,8 @@ def retry(chk, crate):
                     if p_ is not None and not p_["p"] and p_["l"] not in track_locals:
                         track_locals.add(p_["l"])
                         changed = True
-    start = (0, "U", False, "U", ())
+    pending_at_yield = []
+    start = (0, (), False, "U", ())
     seen = {start: None}
     dq = deque([start])
 
@@ -132,12 +133,28 @@ def retry(chk, crate):
     def succs(state):
         bb, fl, failed, slot, known = state
         known = dict(known)
+        bools = dict(fl)
         blk = b.blocks[bb]
         t = blk["term"]
         # statements
         for st in blk["stmts"]:
             if st["s"] != "assign":
                 continue
+            if not st["p"]["p"] and st["p"]["l"] in bool_locals:
+                rv_ = st["rv"]
+                dl = st["p"]["l"]
+                src = op_place(rv_["o"]) if rv_["r"] == "use" else None
+                if src is not None and not src["p"] and src["l"] in bools:
+                    bools[dl] = bools[src["l"]]
+                elif rv_["r"] == "use" and ex.rvalue(rv_) == ("const", 1):
+                    bools[dl] = "T"
+                elif rv_["r"] == "use" and ex.rvalue(rv_) == ("const", 0):
+                    bools[dl] = "F"
+                elif rv_["r"] == "un" and rv_.get("op") == "Not" and op_place(rv_["a"]) is not None and \
+                        not op_place(rv_["a"])["p"] and op_place(rv_["a"])["l"] in bools:
+                    bools[dl] = "F" if bools[op_place(rv_["a"])["l"]] == "T" else "T"
+                else:
+                    bools.pop(dl, None)
             if not st["p"]["p"] and st["p"]["l"] in track_locals:
                 rv_ = st["rv"]
                 if rv_["r"] == "agg" and rv_["kind"] == "adt":
@@ -147,16 +164,6 @@ def retry(chk, crate):
                     known[st["p"]["l"]] = known[op_place(rv_["o"])["l"]]
                 else:
                     known.pop(st["p"]["l"], None)
-            if st["p"]["l"] == flag and not st["p"]["p"]:
-                e = ex.rvalue(st["rv"])
-                if e == ("const", 1):
-                    fl = "T"
-                elif e == ("const", 0):
-                    fl = "F"
-                elif is_call(e, "Result::<T, E>::is_err"):
-                    fl = "FORK"
-                else:
-                    fl = "U"
         if bb in slot_writes:
             kind = slot_writes[bb][0]
             if kind == "N":
@@ -169,10 +176,16 @@ def retry(chk, crate):
                 slot = "U"
         if t["t"] == "call" and not t["dest"]["p"]:
             known.pop(t["dest"]["l"], None)
+            bools.pop(t["dest"]["l"], None)
         kn = tuple(sorted(known.items()))
-        forks = [(fl, failed)]
-        if fl == "FORK":
-            forks = [("T", True), ("F", failed)]
+        forks = [(tuple(sorted(bools.items())), failed)]
+        if t["t"] == "call" and callee(t) == "core::result::Result::<T, E>::is_err" and not t["dest"]["p"] and \
+                t["dest"]["l"] in bool_locals:
+            # the item being yielded is an error (this attempt failed) or it is not
+            dl = t["dest"]["l"]
+            bt = dict(bools); bt[dl] = "T"
+            bf = dict(bools); bf[dl] = "F"
+            forks = [(tuple(sorted(bt.items())), True), (tuple(sorted(bf.items())), failed)]
         out = []
         for fl2, failed2 in forks:
             k = t["t"]
@@ -190,14 +203,17 @@ def retry(chk, crate):
                     a = ex.operand(t["args"][1])
                     if a[0] == "agg" and a[1] == "core::result::Result::Err":
                         failed2 = True
+                    if failed2 and slot != "N":
+                        # the failing item is handed to the consumer *before* the slot is cleared
+                        pending_at_yield.append(bb)
                 if t["to"] is not None:
                     out.append((t["to"], fl2, failed2, slot, kn))
             elif k == "switch":
                 e = ex.operand(t["d"])
                 p = op_place(t["d"])
                 handled = False
-                if p is not None and tr.nplace(p).l == flag and not tr.nplace(p).p and fl2 in ("T", "F"):
-                    want = 1 if fl2 == "T" else 0
+                if p is not None and not p["p"] and p["l"] in dict(fl2):
+                    want = 1 if dict(fl2)[p["l"]] == "T" else 0
                     tgt = None
                     for v, tb in t["targets"]:
                         if v == want:
@@ -258,6 +274,7 @@ def retry(chk, crate):
                 seen[ns] = s
                 dq.append(ns)
     chk.analysed["retry_product_states"] = n
+    chk.analysed["reset_pending_at_yield"] = sorted(set(pending_at_yield))
     for rule in ("C09-a/reset-on-failure", "C09-b/keep-on-success"):
         mine = [(m, sp) for (r, m), sp in findings.items() if r == rule]
         if mine:
@@ -424,3 +441,83 @@ def bypass(chk, crate, ctx):
                     if isinstance(last, dict) and last.get("n") == "inner" and "PacketTransport" in ty_str(last.get("ty")):
                         chk.fail("C09-d/slot-private", b.id, "connection slot written outside the stream module", st.get("sp"))
     chk.floor("C09 obligations", len(chk.obligations), 24)
+
+
+# ------------------------------------------------------------------ (e)
+
+CLIENT_FNS = ["read_card", "begin_transaction", "commit_transaction", "cancel_transaction_by_receipt_no", "end_of_day",
+              "initialize", "set_terminal_id", "get_system_info", "get_pending"]
+
+
+def item_error_edges(f, zvt_adts):
+    """Edges on which an item polled from a reply stream is known to be Err:
+    value 1 of a switch on discr(Result<ReplyEnum, anyhow::Error>), or the Break edge of the
+    switch that follows Try::branch on such a Result."""
+    out = []
+    def is_item_ty(ty):
+        if not ty or ty.get("k") != "adt" or ty.get("n") != "core::result::Result":
+            return False
+        a = ty.get("a") or []
+        if len(a) != 2 or ty_str(a[1]) != "anyhow::Error":
+            return False
+        return a[0].get("k") == "adt" and a[0].get("n") in zvt_adts
+    for i in sorted(f.reach):
+        t = f.b.blocks[i]["term"]
+        if t["t"] == "switch":
+            v = f.tr.value(t["d"])
+            if v.kind == "rv" and v.rv["r"] == "discr" and is_item_ty(v.rv["of"]):
+                ed = f.switch_edges(i)
+                tgt = ed.get(1, ed["else"])
+                out.append((i, tgt, "is Err"))
+        if t["t"] == "call" and callee(t) == "core::ops::try_trait::Try::branch" and t["f"]["a"] and is_item_ty(t["f"]["a"][0]):
+            nb = t["to"]
+            seen = set()
+            while nb is not None and nb not in seen:
+                seen.add(nb)
+                nt = f.b.blocks[nb]["term"]
+                if nt["t"] == "switch":
+                    ed = f.switch_edges(nb)
+                    out.append((nb, ed.get(1, ed["else"]), "`?` on the item"))
+                    break
+                if nt["t"] in ("goto", "falseedge"):
+                    nb = nt["to"]
+                else:
+                    break
+    return out
+
+
+def drained(chk, crate, ctx):
+    zvt = ctx.crate("zvt")
+    # reply enums = the types a packet can be parsed into (impl ZvtParser)
+    replies = {ty_str(im["self"]) for im in zvt.impls if im.get("trait") == "zvt_builder::ZvtParser"}
+    chk.floor("reply enums (impl ZvtParser)", len(replies), 17)
+    n_edges = 0
+    for name in CLIENT_FNS:
+        try:
+            f = Fn(crate, name)
+        except KeyError:
+            chk.fail("C09-e/anchor", name, "client function not found")
+            continue
+        if not f.stream_calls():
+            continue
+        if not chk.analysed.get("reset_pending_at_yield"):
+            chk.ok("C09-e/failed-exchange-drained", name, "the wrapper clears the slot before it yields a failing item: "
+                   "nothing is left to do after the yield", f.sp(), nontrivial=False)
+            n_edges += 1
+            continue
+        polls = {bb for bb, t in f.b.calls() if callee(t) == NEXT}
+        rets = {i for i in f.reach if f.b.blocks[i]["term"]["t"] == "return"}
+        edges = item_error_edges(f, replies)
+        chk.require(len(edges) >= 1, "C09-e/item-check", name,
+                    "no test of the polled item's Ok/Err status found: cannot show that a failed exchange is drained", "",
+                    f.sp(), nontrivial=False)
+        for sw, tgt, how in edges:
+            n_edges += 1
+            region = f.reach_from(tgt, cut_blocks=polls)
+            bad = sorted(region & rets)
+            chk.require(not bad, "C09-e/failed-exchange-drained", name,
+                        "when a polled item %s the function can return without polling the stream again: the wrapper's "
+                        "coroutine is dropped while suspended at the yield of that item, its `src.inner = None` never runs, "
+                        "and the failed connection is reused by the next call" % how,
+                        "stream polled again before any return", f.sp(sw))
+    chk.floor("C09-e item error edges", n_edges, 9)
